@@ -106,7 +106,7 @@ static void run_history(std::vector<op> const& ops, long fail_alloc, long& point
 }
 int main(int argc, char** argv) {
     vh::init(argc, argv);
-    const long NH = vh::opt_long("histories", vh::thorough() ? 4000 : 400);
+    const long NH = vh::opt_long("histories", vh::thorough() ? 20000 : 400);
     const int maxlen = vh::thorough() ? 30 : 12;
     static const long D[] = {0, 1, 2, 3, 5};
     for (long hno = 0; hno < NH; ++hno) {
